@@ -56,3 +56,46 @@ Proof.
     + apply Hok. exact Hin.
     + destruct Hin as [Heq|[]]. injection Heq as <- <-. reflexivity.
 Qed.
+
+(* ---- ordered dictionaries --------------------------------------------------- *)
+
+Lemma bytes_eqb_neq a b : bytes_eqb a b = false <-> a <> b.
+Proof.
+  split.
+  - intros H E. subst. rewrite bytes_eqb_refl in H. discriminate.
+  - intros H. destruct (bytes_eqb a b) eqn:E; [|reflexivity]. apply bytes_eqb_eq in E. contradiction.
+Qed.
+
+Lemma alookup_aset {V} (p k : bytes) (x : V) (l : alist V) :
+  alookup p (aset k x l) = if bytes_eqb p k then Some x else alookup p l.
+Proof.
+  induction l as [|[k' v'] r IH]; cbn.
+  - reflexivity.
+  - destruct (bytes_eqb k k') eqn:Ekk'.
+    + apply bytes_eqb_eq in Ekk'. subst k'. cbn.
+      destruct (bytes_eqb p k); reflexivity.
+    + cbn. destruct (bytes_eqb p k') eqn:Epk'.
+      * apply bytes_eqb_eq in Epk'. subst k'.
+        destruct (bytes_eqb p k) eqn:Epk; [|reflexivity].
+        apply bytes_eqb_eq in Epk. subst k. rewrite bytes_eqb_refl in Ekk'. discriminate.
+      * exact IH.
+Qed.
+
+(* keys of an ordered dictionary keep their first-insertion order *)
+Lemma aset_keys_in {V} (k : bytes) (x : V) (l : alist V) :
+  alookup k l <> None -> map fst (aset k x l) = map fst l.
+Proof.
+  induction l as [|[k' v'] r IH]; cbn; intros H.
+  - contradiction.
+  - destruct (bytes_eqb k k') eqn:E; cbn.
+    + reflexivity.
+    + f_equal. apply IH. exact H.
+Qed.
+
+Lemma aset_keys_new {V} (k : bytes) (x : V) (l : alist V) :
+  alookup k l = None -> map fst (aset k x l) = map fst l ++ [k].
+Proof.
+  induction l as [|[k' v'] r IH]; cbn; intros H.
+  - reflexivity.
+  - destruct (bytes_eqb k k') eqn:E; [discriminate|]. cbn. f_equal. apply IH. exact H.
+Qed.
